@@ -101,6 +101,38 @@ func triples(atoms []atom) tableGen {
 	}}
 }
 
+// combos: all k-element subsets of the atoms (registration order = atom order).
+func combos(atoms []atom, k int) tableGen {
+	n := len(atoms)
+	// number of combinations and unranking in lexicographic order
+	choose := func(a, b int) int {
+		if b < 0 || b > a {
+			return 0
+		}
+		r := 1
+		for i := 1; i <= b; i++ {
+			r = r * (a - b + i) / i
+		}
+		return r
+	}
+	return tableGen{choose(n, k), func(rank int) rm.Table {
+		var pick []atom
+		start := 0
+		for left := k; left > 0; left-- {
+			for i := start; i < n; i++ {
+				c := choose(n-i-1, left-1)
+				if rank < c {
+					pick = append(pick, atoms[i])
+					start = i + 1
+					break
+				}
+				rank -= c
+			}
+		}
+		return tableOf(pick...)
+	}}
+}
+
 // worker holds per-goroutine request material (an *http.Request must not be shared: ServeMux
 // writes to it).
 type worker struct {
@@ -310,6 +342,23 @@ func routingSweeps(r rm.Router, tier string, lite bool) []sweep {
 		}
 		out = append(out, sweep{"P3", r, triples(pathAtoms(u3)), crossReqs(u3.Paths(), u3.QMethods, rs.PathSweepHeaders[:1], true)})
 	}
+	if !lite {
+		// (P4, P5) four- and five-route tables over a tiny alphabet: thresholds in the number of routes
+		u4 := rs.Universe{Tokens: []string{"a", "{x}", "{t:*}"}, Roots: []string{"/a", "/{r}"}, MaxSub: 1,
+			Segs: []string{"a", "b", ""}, MaxPath: 3, RMethods: []string{"GET", "POST"}, QMethods: []string{"GET", "POST", "PUT"}}
+		a4 := pathAtoms(u4)
+		r4 := crossReqs(u4.Paths(), u4.QMethods, rs.PathSweepHeaders[:1], false)
+		out = append(out, sweep{"P4", r, combos(a4, 4), r4}, sweep{"P5", r, combos(a4, 5), r4})
+		// (M1) every route method x every request method on one template
+		allMethods := []string{"GET", "POST", "PUT", "DELETE", "PATCH", "HEAD", "OPTIONS"}
+		mh := rs.HeaderUniverse{Consumes: [][]string{nil, {rs.JSON}}, Produces: [][]string{nil, {rs.XML}}, Ifs: [][]rm.Cond{nil}, NoCT: [][]string{nil, {"PATCH", "HEAD"}},
+			CTs: []string{"", rs.JSON, "text/plain"}, Accepts: []string{"", rs.XML, "text/plain"}, XCs: []string{""}, Bodies: []bool{false, true}}
+		ma := headerAtoms("/m", []string{"/{x}"}, allMethods, mh.Decls())
+		mreqs := crossReqs([]h.Req{{Segs: []string{"m", "1"}}}, allMethods, mh.Combos(), false)
+		out = append(out, sweep{"M1", r, singles(ma), mreqs}, sweep{"M2", r, pairs(ma), mreqs})
+		// (D1) Consumes / Produces declared on the WebService and inherited by routes without their own
+		out = append(out, sweep{"D1", r, defaultsTables(), crossReqs([]h.Req{{Segs: []string{"d", "1"}}}, []string{"GET", "POST"}, hu.Combos(), false)})
+	}
 	if only := os.Getenv("VERIF_ONLY_SWEEP"); only != "" {
 		var f []sweep
 		for _, sp := range out {
@@ -320,6 +369,31 @@ func routingSweeps(r rm.Router, tier string, lite bool) []sweep {
 		return f
 	}
 	return out
+}
+
+// defaultsTables: one service /d with service-level Consumes/Produces defaults and 1-2 routes that
+// declare their own lists or inherit.
+func defaultsTables() tableGen {
+	lists := [][]string{nil, {rs.JSON}, {rs.XML, rs.JSON}}
+	var tabs []rm.Table
+	for _, sc := range lists {
+		for _, spd := range lists {
+			if sc == nil && spd == nil {
+				continue
+			}
+			for _, rc := range lists {
+				for _, rp := range lists {
+					for _, m := range []string{"GET", "POST"} {
+						t := rm.Table{Svcs: []rm.SvcDecl{{Root: "/d", Consumes: sc, Produces: spd, Routes: []rm.RouteDecl{{ID: 0, Method: m, Sub: "/{x}", Consumes: rc, Produces: rp}}}}}
+						tabs = append(tabs, t)
+						t2 := rm.Table{Svcs: []rm.SvcDecl{{Root: "/d", Consumes: sc, Produces: spd, Routes: []rm.RouteDecl{{ID: 0, Method: m, Sub: "/{x}", Consumes: rc, Produces: rp}, {ID: 1, Method: m, Sub: "/{y}"}}}}}
+						tabs = append(tabs, t2)
+					}
+				}
+			}
+		}
+	}
+	return tableGen{len(tabs), func(i int) rm.Table { return tabs[i] }}
 }
 
 func sweepCoverage(run *h.Run, all map[string]sweepStats, order []string) (cases, dispatches, nontrivial int64) {
